@@ -1,16 +1,22 @@
 """Type invariants of check trees, relative to the (unchanging) heap of one evaluation.
 
 wf_tree(c):  c is a well-formed check tree (what parse_rule produces; C02 proves that side).
-evalok(c, t, cr, e): c can be evaluated against target t, credentials cr and enforcer e -- this is the
-  input-validity precondition of C14 ("any mapping target and any JSON-like credentials, roles a list of
-  strings; % only in well-formed placeholders"), stated once and unfolded one step per node.
+wf_eval(c, e): c can be evaluated with enforcer e (tree shape, leaf strings with well-formed placeholders,
+  rule store holding such trees, remote options for http checks); ctx_ok(state, t, cr): target is a dict,
+  credentials are JSON-like with roles a list of strings.  Together they are the input-validity precondition
+  of C14, stated once and unfolded one step per node.
+
+Both predicates are implicit in the heap.  They read only objects in the *footprint* fp (check nodes, their
+operand lists, the rule store, the enforcer and its configuration); the engine drops every fact that mentions
+them when a pre-existing object is written, unless the written object is provably outside fp.
 """
 import z3
 from pyvc.values import V, Int, Str, Bool, ABSENT, NONE, qforall, clsof
 from specs.strings import wfp, jsonlike
 
 wf_tree = z3.Function('wf_tree', V, Bool)
-evalok = z3.Function('evalok', V, V, V, V, Bool)
+wf_eval = z3.Function('wf_eval', V, V, Bool)
+fp = z3.Function('fp', Int, Bool)
 http_ctx = z3.Function('http_ctx', V, Bool)
 
 
@@ -53,36 +59,40 @@ def tree_axioms(eng, st):
     return [qforall([c], z3.Implies(wf_tree(c), body), patterns=[wf_tree(c)])]
 
 
-def rules_store_ok(eng, st, R, t, cr, e):
+def rules_store_ok(eng, st, R, e):
     m = V.m(z3.Select(st.H('$val'), V.ref(R)))
     k = z3.String('rs!k')
     dr = z3.Select(st.H('default_rule'), V.ref(R))
     return z3.And(
-        V.is_obj(R), eng.isinst_ref(V.ref(R), 'dict'), V.is_dict(z3.Select(st.H('$val'), V.ref(R))),
-        qforall([k], z3.Implies(z3.Select(m, k) != ABSENT, evalok(z3.Select(m, k), t, cr, e)),
+        V.is_obj(R), eng.isinst_ref(V.ref(R), 'dict'), V.is_dict(z3.Select(st.H('$val'), V.ref(R))), fp(V.ref(R)),
+        qforall([k], z3.Implies(z3.Select(m, k) != ABSENT, wf_eval(z3.Select(m, k), e)),
                 patterns=[z3.Select(m, k)]),
         z3.Implies(eng.isinst(R, 'Rules'),
-                   z3.Or(dr == NONE, V.is_str(dr), z3.And(eng.isinst(dr, 'BaseCheck'), evalok(dr, t, cr, e)))))
+                   z3.Or(dr == NONE, V.is_str(dr), z3.And(eng.isinst(dr, 'BaseCheck'), wf_eval(dr, e)))))
 
 
 def eval_axioms(eng, st):
-    c, t, cr, e = (z3.Const('eo!' + n, V) for n in ('c', 't', 'cr', 'e'))
+    c, e = (z3.Const('eo!' + n, V) for n in ('c', 'e'))
     r = V.ref(c)
     rules = z3.Select(st.H('rules'), r)
     seq = V.items(z3.Select(st.H('$val'), V.ref(rules)))
     j = z3.Int('eo!j')
     leaf = lambda n: eng.isinst(c, n)
     body = z3.And(
-        eng.isinst(c, 'BaseCheck'),
-        ctx_ok(eng, st, t, cr),
+        eng.isinst(c, 'BaseCheck'), fp(r),
         z3.Implies(z3.Or(leaf('AndCheck'), leaf('OrCheck')),
-                   z3.And(_list_obj(eng, st, rules),
-                          qforall([j], z3.Implies(z3.And(j >= 0, j < z3.Length(seq)), evalok(seq[j], t, cr, e))))),
-        z3.Implies(leaf('NotCheck'), evalok(z3.Select(st.H('rule'), r), t, cr, e)),
+                   z3.And(_list_obj(eng, st, rules), fp(V.ref(rules)),
+                          qforall([j], z3.Implies(z3.And(j >= 0, j < z3.Length(seq)), wf_eval(seq[j], e))))),
+        z3.Implies(leaf('NotCheck'), wf_eval(z3.Select(st.H('rule'), r), e)),
         z3.Implies(leaf('Check'), z3.And(V.is_str(z3.Select(st.H('kind'), r)),
                                          V.is_str(z3.Select(st.H('match'), r)))),
         z3.Implies(z3.Or(leaf('RoleCheck'), leaf('GenericCheck'), leaf('HttpCheck')),
                    wfp(V.s(z3.Select(st.H('match'), r)))),
-        z3.Implies(leaf('RuleCheck'), z3.And(V.is_obj(e), rules_store_ok(eng, st, z3.Select(st.H('rules'), V.ref(e)), t, cr, e))),
-        z3.Implies(leaf('HttpCheck'), http_ctx(e)))
-    return [qforall([c, t, cr, e], z3.Implies(evalok(c, t, cr, e), body), patterns=[evalok(c, t, cr, e)])]
+        z3.Implies(leaf('RuleCheck'), z3.And(V.is_obj(e), fp(V.ref(e)),
+                                             rules_store_ok(eng, st, z3.Select(st.H('rules'), V.ref(e)), e))),
+        z3.Implies(leaf('HttpCheck'), z3.And(http_ctx(e), fp(V.ref(e)))))
+    return [qforall([c, e], z3.Implies(wf_eval(c, e), body), patterns=[wf_eval(c, e)])]
+
+
+HEAP_IMPLICIT = {'wf_eval', 'wf_tree', 'pr', 'EV', 'EVX', 'EV3', 'EVX3', 'http_ctx'}
+EV_SYMS = {'EV', 'EVX', 'EV3', 'EVX3'}
